@@ -64,8 +64,7 @@ func main() {
 	if replay != nil {
 		c.Seed = replaySeed
 	}
-	scratch, cleanup := vlib.Scratch("c11")
-	defer cleanup()
+	scratch, cleanup := vlib.Scratch("c11") // removed explicitly: Finish exits the process
 
 	var batches []batch
 	if replay != nil {
@@ -130,6 +129,7 @@ func main() {
 		}
 	})
 
+	cleanup()
 	if replay != nil {
 		c.Finish(vlib.FinishOpts{Rule: "replay of one child batch", MinNontrivial: 2})
 	}
